@@ -206,7 +206,7 @@ def main(argv):
             undecided.append({'kani_unit': kr['unit'], 'reason': kr.get('reason')})
             continue
         if kr.get('bounded'):
-            bounded_units.append({'unit': kr['unit'], 'bound': kr['bounded'], 'checks': kr.get('checks')})
+            bounded_units.append({'unit': kr['unit'], 'bound': kr['bounded'], 'checks': kr.get('checks'), 'wall_s': kr.get('wall_s')})
         else:
             obligations += kr.get('checks', 0)
             discharged += kr.get('checks', 0) - kr.get('failed', 0)
